@@ -539,6 +539,7 @@ func runC10(tier, replay string) {
 		{name: "label-goto-closure-7", cfg: flowCfg(7, 4, `{"L","M"}`, `{"for","closure"}`, `{"ret","call"}`, `{"goto","label","continue"}`, 3)},
 		{name: "tswitch-fallthrough-7", cfg: flowCfg(7, 4, `{"L"}`, `{"switch","tswitch"}`, `{"ret","panic"}`, `{"fallthrough","break"}`, 2)},
 		{name: "forward-goto-7", cfg: flowCfg(7, 4, `{"L"}`, `{"for","ifb","switch","closure"}`, `{"ret","call"}`, `{"fgoto","label"}`, 3)},
+		{name: "for-if-else-break-9", cfg: flowCfg(9, 4, `{"L"}`, `{"for","ifb"}`, `{"ret"}`, `{"break"}`, 2)},
 		{name: "simple-statements-5", cfg: flowCfg(5, 3, `{"L"}`, `{"ifb","for","closure"}`, `{"ret","assign","define","incdec","send","defer","go","var"}`, `{}`, 3)},
 	}
 	if tier == "thorough" {
@@ -551,6 +552,7 @@ func runC10(tier, replay string) {
 			{name: "tswitch-fallthrough-9", cfg: flowCfg(9, 5, `{"L"}`, `{"switch","tswitch"}`, `{"ret","panic"}`, `{"fallthrough","break"}`, 2), heavy: true},
 			{name: "range-forcond-labels-8", cfg: flowCfg(8, 5, `{"L","M"}`, `{"range","forcond","for","block"}`, `{"ret"}`, `{"break","continue","label"}`, 2), heavy: true},
 			{name: "forward-goto-8", cfg: flowCfg(8, 4, `{"L"}`, `{"for","ifb","switch","closure"}`, `{"ret","call"}`, `{"fgoto","label"}`, 3), heavy: true}, // 4.5e6 states measured
+			{name: "for-if-else-break-10", cfg: flowCfg(10, 5, `{"L"}`, `{"for","ifb"}`, `{"ret"}`, `{"break","label"}`, 2), heavy: true},
 			{name: "two-labels-goto-8", cfg: flowCfg(8, 5, `{"L","M"}`, `{"for","ifb","block"}`, `{"ret"}`, `{"fgoto","goto","label"}`, 2), heavy: true},     // 3.9e6 states measured
 		}
 	}
